@@ -102,8 +102,16 @@ def check(ctx):
     # ---- R-C10.2 ---------------------------------------------------------------
     # reported as ONE error by an ERROR rule that consumes the malformed literal - not as an illegal first character followed by the rest split into other tokens
     err = T.dfa(lambda o: o["kind"] == "regex" and o["action"] == "ERROR")
+    err_nonfinal = None
     for what, lang in LM.MALFORMED.items():
-        w = R.find_in_a_not_b(R.language_dfa(a, lang), err)
+        if what.startswith("NONFINAL-NL "):
+            # strings in which the newline is followed by more text: `$` does not match before that newline
+            if err_nonfinal is None:
+                err_nonfinal = LM.TokAutomaton(m, eos_nl=False).dfa(lambda o: o["kind"] == "regex" and o["action"] == "ERROR")
+            what = what[len("NONFINAL-NL "):]
+            w = R.find_in_a_not_b(R.language_dfa(a, lang), err_nonfinal)
+        else:
+            w = R.find_in_a_not_b(R.language_dfa(a, lang), err)
         ok = w is None
         ctx.oblige("R-C10.2", what, ok, sample={"rule": "R-C10.2", "malformed class": what, "verdict": "always reported as an error" if ok else f"NOT an error: {a.word(w)!r} -> {m.run(w)}"})
         if not ok:
